@@ -2,6 +2,7 @@ package c15
 
 import (
 	"fmt"
+	"math"
 	"runtime"
 	"sort"
 	"strings"
@@ -40,12 +41,13 @@ type rrPlan struct {
 	gap       bool // advance virtual time by one grid step between rounds
 	initSize  int32
 	delayMax  int // the resetter yields 0..delayMax times after the barrier
+	maxTTL    int64
 	fillers   int // extra untouched keys per round (not journalled one by one): a bigger map makes Reset's window longer
 }
 
 func (p rrPlan) String() string {
-	return fmt.Sprintf("resetrace rounds=%d old=%d churners=%dx%d resetters=%d(second=%s) procs=%d interval=%v gap=%v init=%d delay<=%d fillers=%d",
-		p.rounds, p.nold, p.churners, p.churnN, p.resetters, p.second, p.procs, p.interval, p.gap, p.initSize, p.delayMax, p.fillers)
+	return fmt.Sprintf("resetrace rounds=%d old=%d churners=%dx%d resetters=%d(second=%s) procs=%d interval=%v gap=%v init=%d delay<=%d fillers=%d maxTTL=%d",
+		p.rounds, p.nold, p.churners, p.churnN, p.resetters, p.second, p.procs, p.interval, p.gap, p.initSize, p.delayMax, p.fillers, p.maxTTL)
 }
 
 func genResetRace(rng *mon.RNG) rrPlan {
@@ -64,6 +66,10 @@ func genResetRace(rng *mon.RNG) rrPlan {
 	}
 	p.initSize = int32(rng.PickInt(0, 0, 1, 64))
 	p.delayMax = rng.PickInt(0, 1, 3, 10)
+	p.maxTTL = int64(rng.PickInt(0, 0, 0, -30, math.MinInt64))
+	if rng.Chance(1, 6) {
+		p.initSize = int32(rng.PickInt(-1, math.MinInt32, 1<<15))
+	}
 	p.fillers = rng.PickInt(0, 0, 0, 128, 512, 1500)
 	if p.fillers > 1000 {
 		p.rounds = rng.Range(4, 8)
@@ -74,7 +80,7 @@ func genResetRace(rng *mon.RNG) rrPlan {
 func runResetRace(t *testing.T, idx int, pl rrPlan) {
 	desc := pl.String()
 	rec.Begin(idx, desc)
-	h := &hist{idx: idx, pre: "resetrace", desc: desc, cold: map[string]bool{}}
+	h := &hist{idx: idx, pre: "resetrace", desc: desc, maxTTL: pl.maxTTL, cold: map[string]bool{}}
 	var stopViol [2]string
 	if pl.procs > 0 {
 		prev := runtime.GOMAXPROCS(pl.procs)
@@ -82,7 +88,8 @@ func runResetRace(t *testing.T, idx int, pl rrPlan) {
 	}
 	res := mon.Bubble(t, func() {
 		start := time.Now()
-		c := ttlcache.NewCache[string](ttlcache.CacheOptions{InitialSize: pl.initSize, CleanupInterval: pl.interval})
+		c := ttlcache.NewCache[string](ttlcache.CacheOptions{InitialSize: pl.initSize, CleanupInterval: pl.interval, MaxTTL: pl.maxTTL})
+		countOptionShapes(pl.maxTTL, pl.interval, pl.initSize)
 		var clk atomic.Int64
 		ng := pl.resetters + pl.churners
 		root := ng
